@@ -428,6 +428,22 @@ func ownedSnapshot(e *Engine) []string {
 	return out
 }
 
+// hasValueChangingMods: could a Validate call legitimately change the value? (PostTransforms that only look do not.)
+func hasValueChangingMods(n *Node) bool {
+	st := false
+	n.Walk(func(m *Node) {
+		if m.Def != nil || m.Catch != nil || m.Kind == "pre" {
+			st = true
+		}
+		for _, p := range m.PTs {
+			if p.Mutate != "" {
+				st = true
+			}
+		}
+	})
+	return st
+}
+
 func hasStatefulMods(n *Node) bool {
 	st := false
 	n.Walk(func(m *Node) {
@@ -655,10 +671,10 @@ func runC19(x *X) *Violation {
 		if v := checkAlias(res, op.Kind); v != nil {
 			return v
 		}
-		if op.Kind == "validate" && !hasStatefulMods(root) {
+		if op.Kind == "validate" && !hasValueChangingMods(root) {
 			want := CanonV(Populate(x.Built[0].Typ, op.Input))
 			if res.Dest != want {
-				return &Violation{Class: "C19/validate-changed-the-value", Detail: fmt.Sprintf("no Default/Catch/PostTransform in the schema, yet %s became %s", want, res.Dest)}
+				return &Violation{Class: "C19/validate-changed-the-value", Detail: fmt.Sprintf("no Default, Catch or value-changing PostTransform in the schema, yet %s became %s", want, res.Dest)}
 			}
 		}
 		for _, s := range seen {
